@@ -629,7 +629,7 @@ impl TryToCodama<EnumVariantTypeNode> for IdlEnumVariant {
 }
 
 fn discriminant_to_usize(discriminant: &IdlDiscriminant) -> Result<usize> {
-    if discriminant.len() * 8 > std::mem::size_of::<usize>() {
+    if discriminant.len() > std::mem::size_of::<usize>() {
         return Err(crate::Error::DiscriminantTooLarge(
             std::mem::size_of::<usize>(),
         ));
